@@ -35,6 +35,7 @@ import (
 	sdkmath "cosmossdk.io/math"
 	storetypes "cosmossdk.io/store/types"
 	sdk "github.com/cosmos/cosmos-sdk/types"
+	"github.com/cosmos/cosmos-sdk/types/bech32"
 	authtypes "github.com/cosmos/cosmos-sdk/x/auth/types"
 	banktypes "github.com/cosmos/cosmos-sdk/x/bank/types"
 	distrtypes "github.com/cosmos/cosmos-sdk/x/distribution/types"
@@ -43,6 +44,7 @@ import (
 	"github.com/cosmos/gogoproto/proto"
 	"github.com/ethereum/go-ethereum/common"
 
+	"github.com/functionx/fx-core/v8/contract"
 	"github.com/functionx/fx-core/v8/testutil/helpers"
 	fxtypes "github.com/functionx/fx-core/v8/types"
 	crosschaintypes "github.com/functionx/fx-core/v8/x/crosschain/types"
@@ -367,6 +369,23 @@ func TestC16(t *testing.T) {
 		out.Stats.Extra["keepers_with_authority_getter"] = n
 	}
 
+	// ---- the governance module account as the x/auth STATE has it (hypotheses of dependency_exception_rejects: SDK
+	// MsgExecLegacyContent compares the authority with the address of the account it reads from state)
+	{
+		acc := app.AccountKeeper.GetAccount(s.Ctx, govBz0())
+		ma, isMod := acc.(sdk.ModuleAccountI)
+		switch {
+		case acc == nil:
+			out.Violate("the x/auth state holds no account at the governance module address (GetModuleAccount would create one inside MsgExecLegacyContent before its authority check)")
+		case !isMod || ma.GetName() != govtypes.ModuleName:
+			out.Violate("the account at the governance module address in the x/auth state is not the module account named gov")
+		case acc.GetAddress().String() != gov:
+			out.Violate("the governance module account in the x/auth state has address " + acc.GetAddress().String() + ", not " + gov)
+		default:
+			out.Count("state-gov-account-is-module-address")
+		}
+	}
+
 	// ---- valid payload builders for the fx-core messages
 	// a contract that exists, so that a governance-authorised MsgCallContract really takes effect
 	callee := helpers.GenHexAddress()
@@ -489,19 +508,60 @@ func TestC16(t *testing.T) {
 				break
 			}
 		}
-		longS := strings.Replace(gov, "s", "ſ", 1) // U+017F folds to 's' under strings.EqualFold
-		kelvin := strings.Replace(gov, "k", "K", 1)  // U+212A folds to 'k'
+		longS := strings.Replace(gov, "s", "ſ", 1)  // U+017F folds to 's' under strings.EqualFold
+		kelvin := strings.Replace(gov, "k", "K", 1) // U+212A folds to 'k'
 		otherHrp := "cosmos"
 		if strings.HasPrefix(gov, "cosmos1") {
 			otherHrp = "fx"
 		}
 		otherPrefix, _ := sdk.Bech32ifyAddressBytes(otherHrp, govBz)
 		long, _ := sdk.Bech32ifyAddressBytes(prefix, append(append([]byte{}, govBz...), make([]byte, 12)...))
+		// valid account addresses of OTHER lengths that contain the governance bytes (a guard that truncates, pads or
+		// takes a window of the decoded bytes — common.BytesToAddress keeps the last 20, a [20]byte copy the first 20 —
+		// identifies them with the governance account); drawn per call, boundary lengths 21 / 32 / maxLen
+		embed := func() cand {
+			rnd := func(n int) []byte { b := make([]byte, n); rng.Read(b); return b }
+			cat := func(xs ...[]byte) []byte {
+				var o []byte
+				for _, x := range xs {
+					o = append(o, x...)
+				}
+				return o
+			}
+			var kind string
+			var bz []byte
+			switch rng.Intn(9) {
+			case 0:
+				kind, bz = "gov-suffix-32-zero-padded", cat(make([]byte, 12), govBz)
+			case 1:
+				kind, bz = "gov-suffix-32", cat(rnd(12), govBz)
+			case 2:
+				kind, bz = "gov-suffix-21", cat(rnd(1), govBz)
+			case 3:
+				kind, bz = "gov-suffix-maxlen", cat(rnd(maxLen-len(govBz)), govBz)
+			case 4:
+				kind, bz = "gov-prefix-21", cat(govBz, rnd(1))
+			case 5:
+				kind, bz = "gov-prefix-32", cat(govBz, rnd(12))
+			case 6:
+				kind, bz = "gov-twice-40", cat(govBz, govBz)
+			case 7:
+				kind, bz = "gov-middle-32", cat(rnd(6), govBz, rnd(6))
+			default:
+				kind, bz = "gov-truncated-19", govBz[1:]
+			}
+			a, err := sdk.Bech32ifyAddressBytes(prefix, bz)
+			if err != nil {
+				return cand{"32-byte", long}
+			}
+			return cand{kind, a}
+		}
+		e1, e2 := embed(), embed()
 		return []cand{
 			{"empty", ""}, {"hex", "0x" + hex.EncodeToString(govBz)}, {"hex-noprefix", hex.EncodeToString(govBz)},
 			{"mixed-case", string(mixed)}, {"long-s", longS}, {"kelvin", kelvin}, {"other-hrp", otherPrefix},
 			{"gov-space", gov + " "}, {"space-gov", " " + gov}, {"module-name", "gov"}, {"gov-nul", gov + "\x00"},
-			{"valoper", sdk.ValAddress(govBz).String()}, {"32-byte", long}, {"spaces", "   "},
+			{"valoper", sdk.ValAddress(govBz).String()}, {"32-byte", long}, {"spaces", "   "}, e1, e2,
 		}
 	}
 	foldEq := func(a, b string) bool { return strings.EqualFold(a, b) && isASCII(a) && isASCII(b) }
@@ -546,6 +606,9 @@ func TestC16(t *testing.T) {
 	}
 
 	tw := newTxWorld(s, out, gov)
+	s2 := hx.NewSuite(t, 1+rng.Intn(3))
+	tw2 := newTxWorld(s2, out, gov)
+	tw2.keys = s2.App.GetKVStoreKey()
 	proposer := helpers.GenAccAddress()
 	s.MintToken(proposer, sdk.NewCoin(fxtypes.DefaultDenom, sdkmath.NewInt(1e18).MulRaw(1e9)))
 
@@ -606,6 +669,7 @@ func TestC16(t *testing.T) {
 		// the state the sweep starts from: the committed state, or (odd iterations) a branch on which one round of
 		// governance-authorised privileged messages has already taken effect (a multi-step history)
 		base = s.Ctx
+		var appliedMsgs []sdk.Msg
 		if it%2 == 1 {
 			bctx, _ := s.Ctx.CacheContext()
 			applied := 0
@@ -614,6 +678,7 @@ func TestC16(t *testing.T) {
 				var err error
 				if res := hx.Try(func() error { _, err = app.MsgServiceRouter().Handler(m)(bctx, m); return nil }); res == "ok" && err == nil {
 					applied++
+					appliedMsgs = append(appliedMsgs, m)
 				}
 			}
 			out.Count(fmt.Sprintf("history:gov-messages-applied:%d", applied))
@@ -642,6 +707,26 @@ func TestC16(t *testing.T) {
 		if it%3 == 0 {
 			msgs = append(msgs, zeros()...)
 		}
+		// REPLAYS: the very messages governance has just applied on this branch (payloads that describe the CURRENT state: a
+		// handler that skips its check when "nothing changes" or "the set only shrinks" lets a foreign authority re-send
+		// them), whole and with every string list cut down to its first entry
+		for _, am := range appliedMsgs {
+			if c := cloneMsg(am); c != nil {
+				msgs = append(msgs, c)
+				out.Count("replay-of-applied:" + msgKey(am))
+			}
+			v := reflect.ValueOf(am).Elem()
+			for i := 0; i < v.NumField(); i++ {
+				if f := v.Field(i); f.Kind() == reflect.Slice && f.Type().Elem().Kind() == reflect.String && f.Len() > 1 {
+					if c := cloneMsg(am); c != nil {
+						cf := reflect.ValueOf(c).Elem().Field(i)
+						cf.Set(cf.Slice(0, 1))
+						msgs = append(msgs, c)
+						out.Count("replay-of-applied-shrunk:" + msgKey(am) + "." + v.Type().Field(i).Name)
+					}
+				}
+			}
+		}
 		// payloads found to be valid AND effective under governance (one field of a valid payload varied), rotated
 		for _, k := range effKeys {
 			ps := effective[k]
@@ -669,7 +754,7 @@ func TestC16(t *testing.T) {
 				cs = append(cs, junk(rng)...)
 			} else {
 				j := junk(rng)
-				cs = append(cs, j[rng.Intn(len(j))], j[rng.Intn(len(j))])
+				cs = append(cs, j[rng.Intn(len(j))], j[rng.Intn(len(j))], j[len(j)-1]) // always one address embedding the governance bytes
 			}
 			for _, c := range cs {
 				setAuthority(m, c.val)
@@ -734,7 +819,7 @@ func TestC16(t *testing.T) {
 				cs = append(cs, junk(rng)...)
 			} else {
 				j := junk(rng)
-				cs = append(cs, j[1], j[rng.Intn(len(j))], j[rng.Intn(len(j))]) // always the 0x spelling of the governance account
+				cs = append(cs, j[1], j[rng.Intn(len(j))], j[rng.Intn(len(j))], j[len(j)-1]) // always the 0x spelling of the governance account and one address embedding its bytes
 			}
 			type target struct {
 				T    string
@@ -798,6 +883,21 @@ func TestC16(t *testing.T) {
 			out.Count("bech:" + obs[:2])
 			out.Emit(fmt.Sprintf("fold %s %s", hx.HexS(gov), dash(hx.HexS(sp))), fmt.Sprint(strings.EqualFold(gov, sp)))
 			out.Count("fold:" + fmt.Sprint(strings.EqualFold(gov, sp)))
+			// the other decoders a guard could put in front of its comparison (hand-modelled: parseAddress, evmAddr): the
+			// lenient fxtypes.ParseAddress and common.BytesToAddress of the sdk-decoded bytes
+			if contract.ValidateEthereumAddress(sp) == nil {
+				out.Emit("eip55 "+hx.HexS(sp), "ok") // environment of the model: Keccak-256 is not modelled
+				out.Count("parse:eip55-spelling")
+			}
+			pobs := "err"
+			if pa, _, perr := fxtypes.ParseAddress(sp); perr == nil {
+				pobs = "ok:" + dash(hex.EncodeToString(pa))
+			}
+			out.Emit("parse "+dash(hx.HexS(sp)), pobs)
+			out.Count("parse:" + pobs[:2])
+			da, _ := sdk.AccAddressFromBech32(sp)
+			out.Emit("evm20 "+dash(hx.HexS(sp)), hex.EncodeToString(common.BytesToAddress(da).Bytes()))
+			out.Count(fmt.Sprintf("evm20:decoded-len:%d", len(da)))
 		}
 		// ---------------- monitor stream: every routed authority message, junk + candidates, zero and valid payloads
 		vmsgs := valid(rng)
@@ -842,7 +942,7 @@ func TestC16(t *testing.T) {
 						out.Count("hmon:" + c.kind)
 						if hres != "ok" {
 							out.Count("hmon-panic:" + u)
-						} else if d, dep := depImpl[msgKey(m)]; dep && !strings.HasSuffix(u, "MsgExecLegacyContent") {
+						} else if d, dep := depImpl[msgKey(m)]; dep {
 							// correspondence with the model of the regenerated dependency handler
 							obs := "rejected"
 							if herr == nil {
@@ -893,9 +993,15 @@ func TestC16(t *testing.T) {
 			}
 			tw.txStream(rng, cases, junk(rng), other)
 			tw.propStream(rng, cases[:2], junk(rng), other)
+			// whole blocks: several of these transactions in one block through FinalizeBlock + Commit
+			// (on a second app instance: after a Commit the pending block state has no block gas meter until the next
+			// FinalizeBlock, so runTx outside a block — the tx / authz lines above — is only possible before the first one)
+			tw2.blockStream(rng, cases, junk(rng), other)
 		}
 	}
 }
+
+func govBz0() sdk.AccAddress { return authtypes.NewModuleAddress(govtypes.ModuleName) }
 
 func cloneMsg(m sdk.Msg) sdk.Msg {
 	bz, err := proto.Marshal(m)
@@ -1031,7 +1137,45 @@ func isASCII(s string) bool {
 // mutate returns a spelling near the governance address: case changes, substitutions, truncations, other payloads.
 func mutate(rng *rand.Rand, gov, prefix string, govBz []byte) string {
 	r := []rune(gov)
-	switch rng.Intn(12) {
+	switch rng.Intn(15) {
+	case 12: // 0x spellings: EIP-55, lower case, upper-case digits, of the governance bytes or of random ones
+		bz := govBz
+		if rng.Intn(3) == 0 {
+			bz = make([]byte, 20)
+			rng.Read(bz)
+		}
+		h := common.BytesToAddress(bz).Hex()
+		switch rng.Intn(4) {
+		case 0:
+			return strings.ToLower(h)
+		case 1:
+			return "0X" + h[2:]
+		case 2:
+			return h[2:]
+		}
+		return h
+	case 13: // a valid account address of another length that embeds the governance bytes
+		pad := make([]byte, []int{1, 12, 12, 44, 235}[rng.Intn(5)])
+		if rng.Intn(2) == 0 {
+			rng.Read(pad)
+		}
+		bz := append(append([]byte{}, pad...), govBz...)
+		if rng.Intn(3) == 0 {
+			bz = append(append([]byte{}, govBz...), pad...)
+		}
+		a, err := sdk.Bech32ifyAddressBytes(prefix, bz)
+		if err != nil {
+			return gov
+		}
+		return a
+	case 14: // bech32 of short / empty payloads under any prefix (the lenient decoder checks neither prefix nor length)
+		bz := make([]byte, rng.Intn(3))
+		rng.Read(bz)
+		a, err := bech32.ConvertAndEncode([]string{prefix, "fx", "x"}[rng.Intn(3)], bz)
+		if err != nil {
+			return gov
+		}
+		return a
 	case 0:
 		return gov
 	case 1:
